@@ -70,4 +70,5 @@ ba336bb C19 C10
 c1875a2 C14
 0d81d29 C11
 749e897 C19
+6112cb1 C19
 LIST
